@@ -172,3 +172,12 @@ CHECKS["C12"] = (
     "DESIGN.md#6-build-report",
 )
 NA.pop("C12", None)
+
+CHECKS["C16"] = (
+    "other",
+    "static analysis: relational rules over hash-consed value graphs (SSA reading of each function, locals / step boundaries / repeated subexpressions factored out), one polynomial identity (E3) and one finite enumeration",
+    "Decides only what is in the shape of the code, not what qhull / Voronoi / the optimiser return: whatever candidate the numerical search picks, (B1) the 2D rectangle, its offset and its angle are read at that same candidate, min and max are taken over the same two projections of the same hull points, the second direction is the first rotated by a quarter turn, and planar_matrix(offset, theta) centres those projections (polynomial identity); (B2) the 3D box is centred on the middle of min / max of the points under the very matrix that is returned, height and base rectangle are measured on one projection, the axis re-ordering is a det +1 signed permutation for all six orders and uses the order that re-orders the extents; (B3) every (centre, radius) pair returned by minimum_nsphere has its radius equal to the maximum distance of the points to that very centre, read at the same index and mapped back to world units with the same scale; (B4) the AABB is centred on the mean of the bounds with their spread as extents, the oriented box inverts the to-origin transform, hull vertices are rows of the input and the hull faces are re-indexed by the same vertex selection. Convexity / watertightness / outward winding of qhull output after repair, minimality of any volume, bounding_cylinder and tolerance margins are NOT decided. A value whose shape is not recognised is reported as not decided, never as a violation.",
+    "Trusted: value-graph construction in sa/dag.py (reaching definitions, SSA reading of augmented and element assignments, hash-consing), expression templates with commutative matching, E3 transfer functions for planar_matrix, numpy for the six 3x3 permutation matrices.",
+    "DESIGN.md#6-build-report",
+)
+NA.pop("C16", None)
